@@ -8,8 +8,9 @@ and a buffer is `dirty` until its owner resets it (`reset`) or overwrites all of
 The allocator's freedom — which buffer a `Malloc` returns — is the `b` argument of `malloc`; C20
 (live handles pairwise disjoint) appears as "no `allocLive` fault".  C20's frame property (an
 operation on one handle leaves every other handle's bytes unchanged) is the point update `set`.
-C11 (no use-after-free / double free, only initialised bytes are read) appears as "no `notOwner` /
-`staleRead` fault".  `apply` is what the code does when nothing checks (the unchecked effect);
+"No `notOwner` fault" is what C11 (no use-after-free / double free) is meant to establish for the real code;
+"no `staleRead` fault" (only initialised bytes are read) is established by NO theorem of C11 — it rests on
+C09's byte-level differential and the oracle `c10-foreign`.  `apply` is what the code does when nothing checks (the unchecked effect);
 `step` = `apply` guarded by the fault test.  Core Lean only. -/
 namespace SharedHeap
 
@@ -38,7 +39,7 @@ inductive Op where
 inductive Fault where
   | allocLive                     -- the allocator handed out a live buffer (excluded by C20)
   | notOwner                      -- use after free / double free / foreign buffer (excluded by C11)
-  | staleRead                     -- bytes read that the owner never wrote (excluded by C11)
+  | staleRead                     -- bytes read that the owner never wrote (NOT a theorem of C11: C09 differential + c10-foreign)
   deriving Repr, DecidableEq
 
 def init : G := { heap := fun _ => {}, wire := fun _ => [] }
